@@ -49,6 +49,38 @@ CHECKS = {
          "Every string up to length 4 (quick) / 5 (thorough) over a 39-symbol alphabet, blank runs of every length up to 700, the 36-token limit, near-miss spellings and proptest token sequences of up to 40 tokens are compiled; acceptance must equal the reference tokenizer's and the probe rendering must equal the reference rendering of the reference token list (token identity, name case, blank-run length). Run under release and under overflow-checked builds.",
          "Trusted: the reference tokenizer written from the token list in the statement. Language membership beyond length 5 is sampled by grammar-based generation.",
          "4/C19"),
+ "C02": ("operation-table cross-product sweeps + proptest operands vs. range predicates and exact models (validity oracle)",
+         "Every row of a 130-row table of safe public operations is crossed with boundary+seeded operand pools and extreme scalars, and fed proptest-generated operands; every returned value must satisfy its type's range predicate, rows with an exact model must return Ok(exact) iff in range (so clamping or an in-range wrap is caught), month arithmetic must match the month model or fail, and speller-built parse inputs at / past the edges must yield Err or an in-range value.",
+         "Trusted: range limits derived from the walked calendar and the statement; the operation table is hand-written from the public API (a new public function is not picked up automatically). Sampled over operand space; boundary regions by construction.",
+         "4/C02"),
+ "C03": ("exhaustive short strings + proptest grammar/mutation generation + operation table with extreme scalars, oracle = catch_unwind; both build profiles; libFuzzer target in thorough",
+         "All strings up to length 3 (quick) / 4 (thorough) as pictures and as inputs, grammar pictures with long blank runs x mutated formatted inputs, and every operation-table row with extreme scalars are executed under release and under overflow-checked/debug-assertion builds; any panic in a safe call is a violation. Thorough adds a coverage-guided libFuzzer campaign (overflow checks on) over (type, picture, input) bytes.",
+         "Trusted: std::panic::catch_unwind observing every library call. Absence of panics is established only for what was generated; long structured inputs are sampled.",
+         "4/C03"),
+ "C05": ("exhaustive (year, day-of-year) / date / second sweeps + constructive speller with proptest shrinking; oracle = value known by construction, single-component perturbations must be rejected",
+         "Every (year, day-of-year 0..367), every date through six pictures, every second in 24h and 12h+meridian notation in both orders, 7-digit fractions and each type's carry chain are parsed and compared with the value they denote; a speller constructs lenient spellings (unpadded, '+', blanks, letter case, month names for MM, 1..9 fraction digits with carry, omitted trailing time fields) of generated values of all six types, and 24 kinds of single out-of-domain perturbations that must produce an error.",
+         "Trusted: the speller's sound-domain restrictions (listed in DESIGN.md 4/C05) and the walked calendar. Lenient spellings of arbitrary pictures are sampled.",
+         "4/C05"),
+ "C06": ("round-trip (metamorphic) over generated lossless pictures; exhaustive dates / seconds x generated pictures; formatted text cross-checked with the reference renderer",
+         "parse(format(v,p),p) == v and byte-identical re-formatting for all dates and all seconds of the day under generated lossless pictures (field permutations, separators, name styles, extra consistent fields), and for proptest-generated values of all six types; the intermediate text is also compared with the independent renderer so a compensating pair of errors cannot hide.",
+         "Trusted: the lossless-picture grammar (which pictures count as unambiguous: DESIGN.md 4/C06). Picture space is sampled.",
+         "4/C06"),
+ "C15": ("round trip through serde_json and bincode + payload perturbation; oracle = same value / range predicate",
+         "All dates, all seconds and pools of the other types round-trip through JSON and bincode with the exact expected encodings (reference rendering of the fixed layouts; little-endian raw counts); raw integers at every limit +-3, at the integer extremes and 1e5..1e6 seeded integers, and mutated / malformed JSON strings, must decode to Err or an in-range value (whole seconds for the Oracle-style date).",
+         "Trusted: serde_json and bincode 1.3 as data formats; the reference renderer for the JSON layouts.",
+         "4/C15"),
+ "C16": ("exhaustive conversion sweep + operation-table invariant + exact dyadic model for fractional days",
+         "From<Timestamp>/new for all dates x 4 seconds x 5 sub-second parts equal the i128 floor; every operation that takes or returns an Oracle-style date keeps the whole-second / range invariant on pool cross products; interval arithmetic equals the floored timestamp result; add_days variants land on a whole second within half a second of an exactly computed admissible instant; sub_date equals seconds/86400 correctly rounded.",
+         "Trusted: i128 arithmetic, dyadic model. add_days may fail when the unrounded instant is outside the timestamp range (documented leniency).",
+         "4/C16"),
+ "C17": ("differential / metamorphic agreement of three implementations, exhaustive over dates",
+         "For every date (and critical whole-second times) each of the 24 trunc/round units, last_day_of_month, month and interval offsets and all subtraction variants are applied through Date, Timestamp and OracleDate and must denote the same instant or all fail; mixed-type comparisons in both argument orders must equal the comparison of the converted counts. No reference model is involved, so this is independent of the C10/C11 oracles.",
+         "Trusted: only the conversions between the three types (themselves checked in C07/C16).",
+         "4/C17"),
+ "C18": ("exhaustive sweep of the injected clock over every possible current date vs. default model (needs the verif-hooks clock)",
+         "The clock hook is set to each of the 3,652,059 possible current local dates (x 1 or 3 times of day) and partial pictures, short years, now() and time-of-day conversions are compared with the model defaults validated by the walked calendar; complete pictures must give identical results under nine different clocks.",
+         "Trusted: the hook replaces exactly the value of Local::now().naive_local() at the six read sites (add-only, feature-gated). Time-zone handling inside chrono is outside the property.",
+         "4/C18"),
 }
 
 ALL = ["C%02d" % i for i in range(1, 20)]
